@@ -24,10 +24,11 @@ import (
 )
 
 const (
-	keyBodiless = "status-lost-without-body-write" // explicit status != 200 and no Write call follows
-	keyFlush    = "flush-before-write-commits-200" // explicit status != 200 and Flush precedes the first Write
-	keyRace     = "request-body-close-race"        // net/http schedule-dependent abort (see C01)
-	key413      = "413-lost-behind-balancer"       // proxied: the buffered 413 is dropped when ReverseProxy aborts the handler
+	keyBodiless = "status-lost-without-body-write"      // explicit status != 200 and no Write call follows
+	keyFlush    = "flush-before-write-commits-200"      // explicit status != 200 and Flush precedes the first Write
+	keyRace     = "request-body-close-race"             // net/http schedule-dependent abort (see C01)
+	keyGzip413  = "413-lost-when-gzip-wraps-size-limit" // NOT listed in known_findings.json: nothing is excluded unless it is
+	key413      = "413-lost-behind-balancer"            // proxied: the buffered 413 is dropped when ReverseProxy aborts the handler
 )
 
 // StubCase is one exchange against the stub terminal.
@@ -116,6 +117,9 @@ func (c *StubCase) classify() (labels []string, nontrivial bool) {
 	if fb {
 		labels = append(labels, "flush-before-first-write")
 	}
+	if carriesUpgrade(c.Req.Header) {
+		labels = append(labels, "req-carries-upgrade")
+	}
 	if len(c.Chain.Before) > 0 {
 		labels = append(labels, "plugin-wrapped-by-others")
 	}
@@ -173,8 +177,8 @@ func JudgeStubRef(c *StubCase, with *StubLab, reference func() (*lab.RawResponse
 	if hasBody && n > L {
 		// too-large chunked upload: only the bounds are claimed
 		v.Labels = append(v.Labels, "chunked-too-large")
-		if err == nil && int64(len(got.Body)) > M {
-			v.Viol = fmt.Sprintf("S1: client received %d response body bytes, max_response_body is %d", len(got.Body), M)
+		if err == nil && deliveredLen(got) > M {
+			v.Viol = fmt.Sprintf("S1: client received %d response body bytes, max_response_body is %d", deliveredLen(got), M)
 		}
 		return v
 	}
@@ -197,8 +201,8 @@ func JudgeStubRef(c *StubCase, with *StubLab, reference func() (*lab.RawResponse
 		return v
 	}
 	// S1 (a connection without a readable response head delivered no body bytes)
-	if err == nil && int64(len(got.Body)) > M {
-		v.Viol = fmt.Sprintf("S1: client received %d response body bytes, max_response_body is %d", len(got.Body), M)
+	if err == nil && deliveredLen(got) > M {
+		v.Viol = fmt.Sprintf("S1: client received %d response body bytes, max_response_body is %d", deliveredLen(got), M)
 		return v
 	}
 	if total > M {
